@@ -10,6 +10,8 @@ prints one verdict line:
 Imports model and spec only — no proof modules, no Mathlib — so that it links.
 -/
 import PqlModel.Model.Lex
+import PqlModel.Spec.LexOracle
+import Driver.Proto
 open Pql
 
 def fmtTokens (ts : List Token) : String :=
@@ -25,14 +27,28 @@ structure Verdict where
   model : String
   oracle : List String := []
 
-def runOp (op : String) (fields : List String) (_impl : String) : Option Verdict :=
+def fmtSplitX (src : Bytes) : String :=
+  let pieces := splitStatements src
+  " ;; ".intercalate (fmtPieces pieces :: fmtTokens (scan src) :: pieces.map (fun p => fmtTokens (scan p)))
+
+def runOp (op : String) (fields : List String) (impl : String) : Option Verdict :=
   match op, fields with
   | "SCAN", [h] => do
     let s ← Bytes.ofHex h
-    pure { model := fmtTokens (scan s) }
+    let oracle := match Proto.parseTokens impl with
+      | some ts => LexOracle.scanClauses s ts
+      | none => ["unparseable-result"]
+    pure { model := fmtTokens (scan s), oracle }
   | "SPLIT", [h] => do
+    -- result: pieces ;; tokens(whole) ;; tokens(piece 1) ;; …
     let s ← Bytes.ofHex h
-    pure { model := fmtPieces (splitStatements s) }
+    let oracle := match impl.splitOn " ;; " with
+      | ps :: whole :: per =>
+        match Proto.parsePieces ps, Proto.parseTokens whole, per.mapM Proto.parseTokens with
+        | some ps, some whole, some per => LexOracle.splitClauses s ps whole per
+        | _, _, _ => ["unparseable-result"]
+      | _ => ["unparseable-result"]
+    pure { model := fmtSplitX s, oracle }
   | _, _ => none
 
 def processLine (line : String) : String :=
